@@ -199,7 +199,6 @@ RECURSIVE Valid(_, _, _)
 Valid(env, T0, v) ==
   LET T == Resolve(env, T0) IN
   CASE T.k = "INTEGER" -> Sat(T.c, v, BMin, BMax)
-    [] T.k = "ENUM" -> v \in {(T.root \o T.adds)[i].v : i \in DOMAIN (T.root \o T.adds)}
     [] T.k = "BITS" -> Sat(T.size, IOfInt(v.n), BI(0), BMax)
     [] T.k = "OCTETS" -> Sat(T.size, IOfInt(Len(v)), BI(0), BMax)
     [] T.k = "STRING" -> /\ Sat(T.size, IOfInt(Len(v)), BI(0), BMax)
